@@ -170,6 +170,9 @@ func (g *Gateway) subscriptionHandler(w http.ResponseWriter, r *http.Request) {
 				return
 			}
 
+			// a start that reuses the id of a running subscription replaces it:
+			// the one it replaces is ended, it could not be stopped by its id any more
+			subDict.Clean(subMsg.ID)
 			subDict[subMsg.ID] = subEntry
 
 			go subEntry.Listen(conn)
